@@ -77,10 +77,13 @@ def run(ctx):
         ctx.floor("panic sites audited", n, 30)
     # the position state the generators read (castle rights, en-passant file, checkers, pins) is produced by
     # play_unchecked / null_move; a history-level break of move generation can sit there (C02, C03 own the rules)
-    from . import c02, c03
+    from . import c02, c03, c05
     expl = ctx.explanation
     c02.run(ctx)
     c03.run(ctx)
+    # the generators' atoms (knight/king/pawn/slider attack sets, between, line) mean what the specification assumes
+    # only if the look-up functions equal geometry (owned by C05)
+    c05.run_lookups(ctx)
     ctx.explanation = expl
     ctx.assumptions += [
         "atoms of the set algebra (getter applications, table look-ups) are treated as independent; equivalence proved this way is sound",
